@@ -49,7 +49,7 @@ class LowRankRootAddedDiagLinearOperator(AddedDiagLinearOperator):
         self: Float[LinearOperator, "*batch M N"], other: Union[float, torch.Tensor]
     ) -> Float[LinearOperator, "*batch M N"]:
         # We have to over-ride this here for the case where the constant is negative
-        if other > 0:
+        if torch.as_tensor(other).gt(0).all():
             res = super()._mul_constant(other)
         else:
             res = AddedDiagLinearOperator(self._linear_op._mul_constant(other), self._diag_tensor._mul_constant(other))
